@@ -39,6 +39,11 @@ CLAIMED = {
         note="Trusted: Lean kernel; JSON/compact renderings of the abstract config (glue); the per-frame operations are the M4/M5 model tied in C03/C04/C12.",
         design="DESIGN.md section 7 C09",
         technique="Lean 4 proof over the editor model + CLI/model correspondence + direct oracles"),
+    "C10": dict(
+        text="Executable Lean GenModel (base RPU per profile / CM version, static L5/L6/L9/L11/L254, default-block filter, L1 clamp, per-shot and per-frame-edit upserts, length reconciliation, CLI overrides) compared with the real `generate -j` output list and exit status on generated configs; direct oracles: no crash, frame count = sum of durations, every RPU parses with the requested profile and CM version, scene-cut flag exactly at shot starts (everywhere in long-play mode). Lean theorems: gen_length (exactly `length` = sum of durations frames), shot/all-frames length lemmas, l1_clamp_range, clamp leaves other blocks alone.",
+        note="Trusted: Lean kernel; JSON/compact renderings of the abstract config; HDR10+/madVR parsers are third-party inputs to the same shot list (exercised via sample files in C17). Block precedence is decided by the model (M4 upsert) through the correspondence.",
+        design="DESIGN.md section 7 C10",
+        technique="Lean 4 proof over the generator model + CLI/model correspondence + direct oracles"),
     "C12": dict(
         text="Lean theorems about the container model (count equals number of blocks after every touching operation, sorting only permutes, add/remove keep the level invariant, absent container is a no-op or an error); the model's result after every operation of random sequences is compared with the real code's JSON, and the invariants (level routing, count, sortedness of the touched container, keyed upsert) are checked on the real code's JSON after every operation.",
         note="Trusted: Lean kernel, harness. Operations are applied through the public Rust API in-process.",
